@@ -273,11 +273,11 @@ def trace_function(path, fname, nargs, coef_tables, extra=(), abstract=(), max_p
     def tmax(*a):
         if len(a) == 1: a = tuple(a[0])
         if any(is_tainted(x) for x in a): return opaque('max', *a)
-        return builtins.max(*a)
+        return builtins.max(a)
     def tmin(*a):
         if len(a) == 1: a = tuple(a[0])
         if any(is_tainted(x) for x in a): return opaque('min', *a)
-        return builtins.min(*a)
+        return builtins.min(a)
     mod.max, mod.min = tmax, tmin
 
     # abstract module functions
@@ -298,15 +298,42 @@ def trace_function(path, fname, nargs, coef_tables, extra=(), abstract=(), max_p
     # scipy.optimize.fsolve / math.log as the function under trace imports them at call time
     solve_calls = []
     def fake_fsolve(f, t0, *a, **kw):
+        """fsolve(f, t0) -> the abstract `solve` applied to p, after checking that the residual is
+        sat(t) - p, possibly with the iterate clamped to constants first (min / max on t): every
+        branch outcome of f on a probe variable must be  sat(probe) - p  or  sat(constant) - p ,
+        and the unclamped one must occur."""
         if a or kw: raise Refusal('fsolve called with extra arguments')
-        probe = T(g, g.mk('var', 1000))
-        r = f(probe)
-        nd = g.nodes[r.i] if isinstance(r, T) else None
-        ok = nd is not None and nd[0] == 'sub' and g.nodes[nd[1]] == ('call', 'sat', 0, (probe.i,)) and g.nodes[nd[2]][0] in ('var', 'const')
-        if not ok: raise Refusal('the residual handed to fsolve is not literally sat(t) - p')
         if 'sat' not in abstract: raise Refusal('fsolve residual can only be recognised with sat abstract')
-        solve_calls.append(nd[2])
-        return [T(g, g.mk('call', 'solve', 0, (nd[2],)))]      # fsolve returns an array; the code takes [0]
+        probe = T(g, g.mk('var', 1000))
+        saved_plan, saved_dec = g.plan, g.decisions
+        outcomes = []
+        def local(prefix):
+            if len(outcomes) > 16: raise Refusal('too many branches in the residual handed to fsolve')
+            g.plan, g.decisions = list(prefix), []
+            r = f(probe)
+            dec = list(g.decisions)
+            outcomes.append(r)
+            for j in range(len(prefix), len(dec)):
+                local([d[3] for d in dec[:j]] + [not dec[j][3]])
+        try:
+            local([])
+        finally:
+            g.plan, g.decisions = saved_plan, saved_dec
+        pnode, direct = None, False
+        for r in outcomes:
+            nd = g.nodes[r.i] if isinstance(r, T) else None
+            if nd is None or nd[0] != 'sub' or g.nodes[nd[2]][0] not in ('var', 'const'):
+                raise Refusal('the residual handed to fsolve is not sat(t) - p')
+            c = g.nodes[nd[1]]
+            if c[:3] != ('call', 'sat', 0) or len(c[3]) != 1: raise Refusal('the residual handed to fsolve is not sat(t) - p')
+            arg = g.nodes[c[3][0]]
+            if c[3][0] == probe.i: direct = True
+            elif arg[0] != 'const': raise Refusal('the residual handed to fsolve evaluates sat at something other than t or a constant')
+            if pnode is not None and pnode != nd[2]: raise Refusal('the residual handed to fsolve is not sat(t) - p for one p')
+            pnode = nd[2]
+        if not direct: raise Refusal('the residual handed to fsolve never evaluates sat at the iterate')
+        solve_calls.append(pnode)
+        return [T(g, g.mk('call', 'solve', 0, (pnode,)))]      # fsolve returns an array; the code takes [0]
     def fake_log(x):
         if isinstance(x, T): return opaque('log', x)
         return math.log(x)
